@@ -61,6 +61,108 @@ def check_no_partial_reset(run, rule):
                "is not in it" % callee_name(partial[0][1]), nontrivial=False)
 
 
+def failure_reported_by_result(facts, cls, sp, step, forward):
+    """(verdict, text) for a compressor step without a throw of its own"""
+    order = {id(n): i for i, n in enumerate(ir.walk(step["body"]))}
+    rets = [r for r in ir.walk(step["body"]) if r.get("k") == "Return" and r.get("e") is not None]
+
+    def fields_of(r):
+        il = unwrap_all_casts(r["e"])
+        while isinstance(il, dict) and il.get("k") == "Construct" and len(il.get("args", [])) == 1:
+            il = unwrap_all_casts(il["args"][0])
+        return il.get("c") if isinstance(il, dict) and il.get("k") == "InitList" else None
+    rec = facts.records.get((step.get("ret") or "").replace("const ", "")) or {}
+    names = [f_["n"] for f_ in rec.get("fields", [])]
+    err = [r for r in rets if order[id(r)] < order[id(forward)]]
+    good = [r for r in rets if order[id(r)] > order[id(forward)]]
+    if not names or not err or not good or any(fields_of(r) is None or len(fields_of(r)) != len(names) for r in rets):
+        return None, "the step neither throws on a refused return code nor returns a result struct built in place"
+    sig = None
+    for i, nm in enumerate(names):
+        ev_ = set(const_value(fields_of(r)[i]) for r in err)
+        gv_ = set(const_value(fields_of(r)[i]) for r in good)
+        if len(ev_) == 1 and len(gv_) == 1 and None not in ev_ and None not in gv_ and ev_ != gv_ and rec["fields"][i].get("t") == "bool":
+            sig = (i, nm, list(ev_)[0])
+            break
+    if sig is None:
+        return False, "a refused return code neither throws nor is told apart in the result: no member has one constant on the failure returns and another on the rest"
+    i, nm, errval = sig
+    sites = 0
+    for f in facts.functions.values():
+        if f.get("cls") != cls or f.get("body") is None:
+            continue
+        calls = [c for c in ir.calls_in(f["body"]) if callee_qn(c) == "%s::%s" % (cls, sp["step"])]
+        if not calls:
+            continue
+        tested = set()
+
+        def is_test(c_, of_call=None, of_local=None):
+            """condition true exactly when the member carries the failure value"""
+            u = unwrap_all_casts(c_)
+            neg = False
+            while isinstance(u, dict) and u.get("k") == "Un" and u.get("op") == "!":
+                neg = not neg
+                u = unwrap_all_casts(u.get("e"))
+            if not (isinstance(u, dict) and u.get("k") == "Member" and u.get("n") == nm):
+                return False
+            b = unwrap_all_casts(u.get("base"))
+            while isinstance(b, dict) and b.get("k") == "Construct" and b.get("copymove") and len(b.get("args", [])) == 1:
+                b = unwrap_all_casts(b["args"][0])
+            if of_call is not None and b is not of_call:
+                return False
+            if of_local is not None and path(b) != of_local:
+                return False
+            return neg == (not errval)         # `!r.ok` for failure value false, `r.failed` for failure value true
+
+        def throws_first(br):
+            sts = [x for x in ir.stmts(br) if x.get("k") != "Null"]
+            return bool(sts) and unwrap(sts[0]).get("k") == "Throw"
+
+        def scan(sts):
+            for j, s_ in enumerate(sts):
+                u = unwrap(s_)
+                if not isinstance(u, dict):
+                    continue
+                k = u.get("k")
+                if k == "If":
+                    for c in calls:
+                        if any(x is c for x in ir.walk(u.get("cond"))) and is_test(u["cond"], of_call=c) and throws_first(u.get("then")):
+                            tested.add(id(c))
+                target = None
+                if k == "Bin" and u.get("op") == "=":
+                    target, rhs = path(u.get("lhs")), u.get("rhs")
+                elif k == "OpCall" and u.get("op") == "=" and len(u.get("args", [])) == 2:
+                    target, rhs = path(unwrap_all_casts(u["args"][0])), u["args"][1]
+                elif k == "Decl" and len(u.get("vars", [])) == 1 and u["vars"][0].get("init") is not None:
+                    v = u["vars"][0]
+                    target, rhs = ("l:%s#%s" % (v.get("n"), v.get("id")),), v["init"]
+                if target:
+                    b = unwrap_all_casts(rhs)
+                    while isinstance(b, dict) and b.get("k") == "Construct" and b.get("copymove") and len(b.get("args", [])) == 1:
+                        b = unwrap_all_casts(b["args"][0])
+                    for c in calls:
+                        if b is c and j + 1 < len(sts):
+                            nx = unwrap(sts[j + 1])
+                            if isinstance(nx, dict) and nx.get("k") == "If" and is_test(nx["cond"], of_local=target) and throws_first(nx.get("then")):
+                                tested.add(id(c))
+                for sub in ir.children(u):
+                    if isinstance(sub, dict) and sub.get("k") == "Block":
+                        scan(ir.stmts(sub))
+                    elif isinstance(sub, dict) and sub.get("k") in ("If", "While", "Do", "For", "Try", "Switch", "Handler", "Case", "Default"):
+                        scan([sub])
+                for h in u.get("handlers", []) or []:
+                    scan(ir.stmts(h.get("body")))
+        scan(ir.stmts(f["body"]))
+        for c in calls:
+            sites += 1
+            if id(c) not in tested:
+                return False, "%s at line %s does not test `%s` of the step's result and throw: a refused return code goes unnoticed" % (
+                    f["qn"].split("::")[-1], c.get("l"), nm)
+    if sites == 0:
+        return None, "no caller of the step found"
+    return True, ""
+
+
 def check(run):
     check_no_partial_reset(run, "R14.4")
     # the compression suffix is part of the name under which the output is written and published (R15.1/R15.2 imported)
@@ -179,7 +281,9 @@ def check(run):
                                     sets_ = [rhs for lp, rhs, n_ in consumption.assignment_targets(ir.stmts(step["body"])) if lp == (path(il)[0], m_["n"])]
                                     good_ = good_ and len(sets_) == 1 and end_test(sets_[0])
                                 elif isinstance(il, dict) and il.get("k") == "InitList" and len(il.get("c", [])) == len(names_):
-                                    good_ = good_ and end_test(il["c"][idx_])
+                                    # (a return that says "not finished" outright keeps the caller draining: whether the
+                                    # failure it stands for is reported is R14.3's question)
+                                    good_ = good_ and (end_test(il["c"][idx_]) or const_value(il["c"][idx_]) == 0)
                                 else:
                                     good_ = False
                             cmp_ok = good_
@@ -285,7 +389,13 @@ def check(run):
                         if not okc:
                             why = "output is forwarded when the return code is in %s; only %s may be accepted" % (sorted(vals), sorted(sp["ok"].values()))
             throws = [n for n in ir.walk(step["body"]) if n.get("k") == "Throw"]
-            okc = (okc and len(throws) >= 1) if okc is not None else None
+            if okc and not throws:
+                # the step reports a refused code through its result struct instead: the returns reached without forwarding
+                # carry a constant in one member that no other return carries, and every caller tests that member straight
+                # after the call and throws
+                okc, why = failure_reported_by_result(facts, cls, sp, step, fw[0])
+            else:
+                okc = (okc and len(throws) >= 1) if okc is not None else None
         run.ob("R14.3", "%s::%s:only-ok-or-end" % (tag, sp["step"]), okc, step, step["line"],
                "only %s are accepted; everything else throws" % "/".join(sp["ok"].values()) if okc else why)
 
